@@ -15,6 +15,7 @@ PROPS = {
     "C04": dict(level="fault_enumeration", shards=(16, 16), timeout=(1200, 3400), assumptions=COMMON + ["crypto/tls and crypto/x509 of Go 1.23 verify chains and host names correctly; the peer tags received elements clear-text / inside-TLS by the connection object they were read from"]),
     "C05": dict(level="exploration", shards=(4, 16), timeout=(900, 3000), assumptions=COMMON + ["loopback TCP / WebSocket deliver bytes in order; quiescence is detected by waiting (up to 5 s, 20 s on the confirming re-run) until the expected number of stanzas was routed"]),
     "C06": dict(level="exploration", shards=(2, 16), timeout=(300, 1500), assumptions=COMMON),
+    "C08": dict(level="exploration", shards=(4, 16), timeout=(900, 3000), assumptions=COMMON + ["the scripted peer's byte-exact capture of each received element is the wire truth"], race=dict(pattern="^TestC08_send$", shards=(2, 8), timeout=(900, 3000), scale=0.25, quick=False)),
     "C09": dict(level="exploration", shards=(4, 16), timeout=(600, 3000), assumptions=COMMON + ["loopback TCP delivers bytes in order; the scripted peer's own count of stanzas it sent is the wire truth"]),
     "C10": dict(level="exploration", shards=(4, 16), timeout=(900, 3000), assumptions=COMMON + ["the order in which the scripted peer receives elements is the wire order; quiescence after each step is detected by waiting for the expected number of elements (4 s, 16 s on the confirming re-run) plus a short settle time"], race=dict(pattern="^TestC10_smqueue$", shards=(2, 8), timeout=(900, 3000), scale=0.25, quick=False)),
     "C11": dict(level="fault_enumeration", shards=(8, 16), timeout=(900, 3000), assumptions=COMMON + ["loopback TCP; the peer's record of the ids it handed out and of the <resume/> elements it received is the truth"]),
@@ -33,6 +34,11 @@ NOT_APPLICABLE = {}
 
 # Texts for MANIFEST.json
 TEXT = {
+    "C08": dict(
+        technique="property-based concurrency stress (rapid) with a byte-exact wire oracle on the scripted peer, plus write-fault injection on a stub Transport; -race pass in the thorough tier",
+        level_text="Exploration: G x K concurrent Send / SendRaw / SendIQ calls with unique ids and payloads up to 64 KB over client/TCP, client/TLS, client/WebSocket and component/TCP, with stream management and the traffic logger on or off; the peer captures the exact bytes of every element: each accepted send must arrive exactly once and byte-identical, nothing else and nothing unparsable may arrive, accepted stanzas must be held under SM, sends after Disconnect must fail without panic. A second check injects Write failures at generated indices on a stub Transport: an error is returned exactly when the write failed and each success is exactly one Write of the serialised bytes.",
+        level_note="Interleavings are those the Go scheduler produces (16 goroutines, 16 cores) plus the race detector in the thorough tier; they are not enumerated. 120 stress cases + 3000 fault cases quick; 4000 + 200k thorough.",
+    ),
     "C18": dict(
         technique="property-based fault injection (rapid): generated interval / failing-keepalive index / session-end time on a stub Transport and on a real Client with a wrapped Transport against the scripted peer",
         level_text="Exploration: generated intervals (2-40 ms), a write failure at the k-th keepalive for k in 1-10, or a session end at a generated time relative to the ticker; run on the bare keepalive loop with a recording stub Transport (verif export) and end to end with a real Client whose Transport is wrapped. Rate bound (sound: a ticker never fires early), presence of at least one keepalive within a generous margin, single-newline content on the wire, exactly one Close and no further keepalive after a failed write, loss reported once, loop termination and silence after the session ended.",
